@@ -92,6 +92,12 @@ func sharedValues(t *tape.Tape) (rel.Scope, []string) {
 		ys = append(ys, rel.NewTuple(rel.NewAttr("y", num(i))))
 	}
 	sc = sc.With("ysub", rel.MustNewSet(ys...))
+	// a dictionary: membership tests and removals of different entries from several goroutines
+	var des []rel.DictEntryTuple
+	for i := 0; i < 30; i++ {
+		des = append(des, rel.NewDictEntryTuple(num(i), num(1000+i)))
+	}
+	sc = sc.With("dd", rel.MustNewDict(false, des...))
 	return sc, desc
 }
 
@@ -130,6 +136,8 @@ var programs = []string{
 	"r rank (k: .x)",
 	"nums sum .", "r sum .x", "(r => .x) mean .", "nums sum . * 2",
 	"exp3('A')", "exp3('B')", "exp3('C')", // one shared partial application of a curried standard-library function
+	"(@: 3, @value: 1003) <: dd", "(@: 22, @value: 1022) <: dd", "(@: 7, @value: 1) <: dd", "dd without (@: 5, @value: 1005)", "dd without (@: 11, @value: 1011)",
+	"dd(17)", "(dd where .@ > 20) count", "dd +> {99: 1}",
 	"r <&> ysub",
 	"(r <&> ysub) count",
 	"r -&- ysub",
